@@ -82,15 +82,12 @@ Definition data_b64 : list N := [98].    (* stands for the decoded CFG_CONFIG_B6
 Definition text_b64 : list N := [66].
 
 (** the world the harness set up *)
-(** [docbad]: the JSON document of a carrier (the -config file, CFG_CONFIG_B64) is empty, blank or not JSON at all: the
-    decoder oracle refuses it. *)
-Definition world_of (isz : N) (fos : list fobs) (cfgfile : option (list N)) (b64set : bool) (docbad : bool) : world :=
+Definition world_of (isz : N) (fos : list fobs) (cfgfile : option (list N)) (b64set : bool) : world :=
   let envs := flat_map (fun fo => match fo_env fo with Some t => [(fo_envhand fo, t)] | None => [] end) fos in
   {| w_env := fun n => if bytes_eqb n b64_env_name then (if b64set then Some text_b64 else None) else env_lookup envs n;
      w_file := fun p => match cfgfile with Some q => if bytes_eqb p q then Some data_file else None | None => None end;
      w_b64 := fun s => if bytes_eqb s text_b64 then Some data_b64 else None;
-     w_json := fun d => if docbad then None else
-                        if bytes_eqb d data_file then Some (overlay_of fo_jfile fos)
+     w_json := fun d => if bytes_eqb d data_file then Some (overlay_of fo_jfile fos)
                         else if bytes_eqb d data_b64 then Some (overlay_of fo_jb64 fos) else None;
      w_set := {| o_int_size := isz; o_parse := oracle_of fos |} |}.
 
@@ -153,14 +150,9 @@ Definition parsers_ok (isz : N) (fos : list fobs) : bool :=
                       end) (fo_oracle fo)) fos.
 
 Definition check_case (int_size : N) (fos : list fobs) (vec : list token) (cfgfile : option (list N)) (b64set : bool)
-    (ok : bool) (rest : list token) (help : option bool) (callno : N) (unchanged : bool) (docbad : bool) : verdict :=
+    (ok : bool) (rest : list token) (help : option bool) (callno : N) (unchanged : bool) : verdict :=
   let fields := map fo_flag fos in
-  (* [docbad]: the document of the EFFECTIVE carrier (the file when -config is given, else CFG_CONFIG_B64) is empty, blank or
-     not JSON (the harness then reports that the carrier mentions no field). An error return is always acceptable (the
-     decoder oracle refuses the document); when the implementation returns nil, it is judged by the priority rule with
-     that carrier as the JSON source mentioning nothing — in particular the other carrier is NOT a source — and the
-     model is run in the world whose decoder reads the document as mentioning nothing. *)
-  let w := world_of int_size fos cfgfile b64set (docbad && negb ok) in
+  let w := world_of int_size fos cfgfile b64set in
   let orc := w_set w in
   let env_fail := flat_map (fun fo => if bytes_eqb (fenv (fo_flag fo)) (fo_envobs fo) && bytes_eqb (fo_envhand fo) (fo_envobs fo)
                                       then [] else [fname (fo_flag fo)]) fos in
